@@ -288,6 +288,10 @@ def run_extraction(ex: Extraction, report):
         t = SrcText.from_file_slice(src, fs, fe)
         rec["item"] = "fragment of fn %s" % ex.args.get("fn")
         rec["lines"] = [src.count("\n", 0, fs) + 1, src.count("\n", 0, fe) + 1]
+        rec["fn"] = ex.args.get("fn")
+        rec["impl"] = ex.args.get("impl")
+        rec["nth"] = int(ex.args.get("nth", 1))
+        rec["span"] = [fs, fe]
     else:
         raise Unsupported("unknown extraction mode %s" % ex.mode)
 
